@@ -155,6 +155,35 @@ VH_EXPORT int vp_h13d_w16le(const unsigned char* in, unsigned char* out) { retur
 VH_EXPORT int vp_h13d_w16be(const unsigned char* in, unsigned char* out) { return prop_writer<2>(in, out); }
 VH_EXPORT int vp_h13d_w32le(const unsigned char* in, unsigned char* out) { return prop_writer<3>(in, out); }
 VH_EXPORT int vp_h13d_w32be(const unsigned char* in, unsigned char* out) { return prop_writer<4>(in, out); }
+// ---- h13d, two calls: a Write() that fails (ThrowError, lone high surrogate after 'a') emits nothing and leaves nothing behind:
+// the following Write() of a valid scalar produces exactly BOM? ++ encoding of that scalar.  (Targets of another width than the
+// source only: a same-width target copies the code units without validating them, by design.)
+template <int E> static inline int prop_writer2(const unsigned char* in, unsigned char* out) {
+	bool bom = (in[1] & 1) != 0;
+	uint32_t c = vh::rd<uint32_t>(in + 3) & 0x1FFFFF;
+	char16_t bad[2] = { u'a', (char16_t)(0xD800 + (vh::rd<uint16_t>(in + 7) & 0x3FF)) };
+	uint16_t u[2]; size_t nu = ref::enc_utf16(c, u);
+	char16_t good[2] = { (char16_t)u[0], (char16_t)(nu > 1 ? u[1] : 0) };
+	static char sbuf[24]; for (size_t i = 0; i < 24; i++) sbuf[i] = 0;
+	vh::MemOStream os(sbuf, 24);
+	verif_symbolic_phase();
+	UtfEncodingErrorCode e1 = UtfEncodingErrorCode::Success, e2 = UtfEncodingErrorCode::Success;
+	int rc = vh::outcome([&] {
+		CEncodedStreamWriter w(os, ENC[E], bom, UtfEncodingErrorPolicy::ThrowError);
+		e1 = w.Write(std::u16string_view(bad, 2));
+		e2 = w.Write(std::u16string_view(good, nu));
+	});
+	unsigned char want[24]; size_t nw = 0;
+	if (bom) nw += put_bom(want, E);
+	nw += put_scalar(want + nw, c, E);
+	out[0] = (unsigned char)rc; out[1] = (unsigned char)e1; out[2] = (unsigned char)e2; out[3] = (unsigned char)os.written(); out[4] = (unsigned char)nw;
+	if (rc != vh::OK || e1 == UtfEncodingErrorCode::Success || e2 != UtfEncodingErrorCode::Success || os.written() != nw) return 0;
+	for (size_t i = 0; i < 24; i++) if (i < nw && (unsigned char)sbuf[i] != want[i]) return 0;
+	return 1;
+}
+VH_EXPORT int va_h13d2(const unsigned char* in) { return ref::is_scalar(vh::rd<uint32_t>(in + 3) & 0x1FFFFF); }
+VH_EXPORT int vp_h13d_w2_8(const unsigned char* in, unsigned char* out) { return prop_writer2<0>(in, out); }
+VH_EXPORT int vp_h13d_w2_32be(const unsigned char* in, unsigned char* out) { return prop_writer2<4>(in, out); }
 VH_EXPORT int vp_h13b_utf8(const unsigned char* in, unsigned char* out) { return prop_reader<0>(in, out); }
 VH_EXPORT int vp_h13b_utf16le(const unsigned char* in, unsigned char* out) { return prop_reader<1>(in, out); }
 VH_EXPORT int vp_h13b_utf16be(const unsigned char* in, unsigned char* out) { return prop_reader<2>(in, out); }
@@ -164,6 +193,8 @@ VH_EXPORT int vp_h13b_utf16be(const unsigned char* in, unsigned char* out) { ret
 //@ OBL {"name": "h13d_w16be", "prop": "vp_h13d_w16be", "assume": "va_h13d", "in": 12, "out": 8, "unwind": 8, "unwind_models": 26, "unwind_fn": {"^verif_stream_copy$": 26, "vp_h13d|prop_writer": 26}, "fs": 32, "cap_s": 900, "backends": ["default", "kissat"], "bounds": "BOM on/off x UTF-16 text of k <= 2 arbitrary Unicode scalars, target UTF-16BE", "desc": "CEncodedStreamWriter: stream bytes == BOM? ++ reference UTF-16BE encoding"}
 //@ OBL {"name": "h13d_w32le", "prop": "vp_h13d_w32le", "assume": "va_h13d", "in": 12, "out": 8, "unwind": 8, "unwind_models": 26, "unwind_fn": {"^verif_stream_copy$": 26, "vp_h13d|prop_writer": 26}, "fs": 32, "cap_s": 900, "backends": ["default", "kissat"], "bounds": "BOM on/off x UTF-16 text of k <= 2 arbitrary Unicode scalars, target UTF-32LE", "desc": "CEncodedStreamWriter: stream bytes == BOM? ++ reference UTF-32LE encoding"}
 //@ OBL {"name": "h13d_w32be", "prop": "vp_h13d_w32be", "assume": "va_h13d", "in": 12, "out": 8, "unwind": 8, "unwind_models": 26, "unwind_fn": {"^verif_stream_copy$": 26, "vp_h13d|prop_writer": 26}, "fs": 32, "cap_s": 900, "backends": ["default", "kissat"], "bounds": "BOM on/off x UTF-16 text of k <= 2 arbitrary Unicode scalars, target UTF-32BE", "desc": "CEncodedStreamWriter: stream bytes == BOM? ++ reference UTF-32BE encoding"}
+//@ OBL {"name": "h13d_w2_8", "prop": "vp_h13d_w2_8", "assume": "va_h13d2", "in": 12, "out": 8, "unwind": 8, "unwind_models": 26, "unwind_fn": {"^verif_stream_copy$": 26, "vp_h13d|prop_writer": 26}, "fs": 32, "cap_s": 900, "backends": ["default", "kissat"], "bounds": "BOM on/off; first text = a + any lone high surrogate (rejected under ThrowError), second text = any Unicode scalar, target UTF-8", "desc": "CEncodedStreamWriter: a failing Write emits nothing and does not leak into the next Write"}
+//@ OBL {"name": "h13d_w2_32be", "prop": "vp_h13d_w2_32be", "assume": "va_h13d2", "in": 12, "out": 8, "unwind": 8, "unwind_models": 26, "unwind_fn": {"^verif_stream_copy$": 26, "vp_h13d|prop_writer": 26}, "fs": 32, "cap_s": 3600, "tier": "open", "backends": ["default", "kissat"], "bounds": "BOM on/off; first text = a + any lone high surrogate (rejected under ThrowError), second text = any Unicode scalar, target UTF-32BE", "desc": "CEncodedStreamWriter: a failing Write emits nothing and does not leak into the next Write"}
 //@ OBL {"name": "h13c_cut8", "prop": "vp_h13c_cut8", "assume": "va_h13c_8", "in": 12, "out": 8, "unwind": 8, "unwind_models": 20, "unwind_fn": {"^verif_stream_copy$": 20, "vp_h13c|prop_cut": 18}, "fs": 32, "cap_s": 3600, "mem_gb": 40, "tier": "open", "backends": ["default", "kissat"], "bounds": "UTF-8 stream BOM + 'a' + one multi-byte scalar cut at every byte 0..len, both policies, target char16_t, chunk 32", "desc": "CEncodedStreamReader on a stream that ends inside a character: DecodeError (ThrowError) or mark (Skip), the read loop ends"}
 //@ OBL {"name": "h13c_cut8n", "prop": "vp_h13c_cut8n", "assume": "va_h13c_8", "in": 12, "out": 8, "unwind": 8, "unwind_models": 20, "unwind_fn": {"^verif_stream_copy$": 20, "vp_h13c|prop_cut": 18}, "fs": 32, "cap_s": 3600, "mem_gb": 40, "tier": "open", "backends": ["default", "kissat"], "bounds": "UTF-8 stream without BOM: 'a' + one multi-byte scalar cut at every byte 0..len, both policies, target char16_t, chunk 32", "desc": "CEncodedStreamReader on a stream that ends inside a character: DecodeError (ThrowError) or mark (Skip), the read loop ends"}
 //@ OBL {"name": "h13c_cut16le", "prop": "vp_h13c_cut16le", "assume": "va_h13c_16", "in": 12, "out": 8, "unwind": 8, "unwind_models": 20, "unwind_fn": {"^verif_stream_copy$": 20, "vp_h13c|prop_cut": 18}, "fs": 32, "cap_s": 3600, "mem_gb": 40, "tier": "open", "backends": ["default", "kissat"], "bounds": "UTF-16LE stream BOM + 'a' + one supplementary scalar cut after 0, 1 or 2 code units, both policies", "desc": "same for UTF-16LE (lone high surrogate at the end of the stream)"}
@@ -183,3 +214,4 @@ VH_EXPORT int vp_h13b_utf16be(const unsigned char* in, unsigned char* out) { ret
 //@ VEC h13d_w8 000102e9000000ac20000000
 //@ VEC h13d_w16le 0001024af6010041000000
 //@ VEC h13d_w32be 000001ffff000000000000
+//@ VEC h13d_w2_8 000100e900000001000000
